@@ -63,3 +63,56 @@ theorem elementRange_false_flag (cfg : Cfg) (content : Bytes) (el : Element) (st
 
 
 end Chiritori
+
+namespace Chiritori
+open Spec
+
+/-- registered, not skipped -/
+theorem registered_iff (cfg : Cfg) (el : Element) :
+    (evaluatorFor cfg el.name).isSome = (el.name == cfg.rmName || el.name == cfg.tlName) := by
+  unfold evaluatorFor
+  by_cases h1 : el.name = cfg.rmName
+  · simp [h1]
+  · by_cases h2 : el.name = cfg.tlName
+    · have h3 : ¬ cfg.tlName = cfg.rmName := h2 ▸ h1
+      simp [h2, h3]
+    · simp [h1, h2]
+
+/-- `collect_removable_ranges`' decision for one element, in closed form -/
+theorem elementRange_eq (cfg : Cfg) (content : Bytes) (all : Bool) (el : Element) (st en : Token) :
+    elementRange cfg content all el st en =
+      if (createRange content el st en).1.isEmpty then none
+      else if conditionHolds cfg el then
+        some ((createRange content el st en).1, (createRange content el st en).2, true)
+      else if all && conditionPending cfg el then
+        some ((createRange content el st en).1, (createRange content el st en).2, false)
+      else none := by
+  have hv := evaluator_verdict cfg el
+  have hreg := registered_iff cfg el
+  unfold conditionPending
+  rw [← isSkip_eq_hasAttr]
+  unfold elementRange
+  cases hs : isSkip el with
+  | true =>
+    rw [hs] at hv
+    have hc : conditionHolds cfg el = false := by
+      cases he : evaluatorFor cfg el.name <;> rw [he] at hv <;> simpa using hv.symm
+    simp [hc]
+  | false =>
+    rw [hs] at hv
+    cases he : evaluatorFor cfg el.name with
+    | none =>
+      rw [he] at hv hreg
+      have hc : conditionHolds cfg el = false := by simpa using hv.symm
+      have hr : (el.name == cfg.rmName || el.name == cfg.tlName) = false := by simpa using hreg.symm
+      simp [hc, hr]
+    | some ev =>
+      rw [he] at hv hreg
+      simp only [Bool.not_false, Bool.true_and] at hv
+      have hr : (el.name == cfg.rmName || el.name == cfg.tlName) = true := by simpa using hreg.symm
+      have hc : conditionHolds cfg el = ev el := hv.symm
+      cases hcr : createRange content el st en with
+      | mk r p =>
+        cases hev : ev el <;> cases all <;> cases hre : r.isEmpty <;> simp [hc, hev, hre, hr]
+
+end Chiritori
